@@ -81,7 +81,7 @@ def genTy : Nat → Schema → TypeRef → Rng → Option (Val × Rng)
       let (l, r0) := r.below 7
       let (bs, r1) := Rng.bytes l r0
       some (.prim bs, r1)
-    else if n == "Dictionary" || n == "dictionary" then none  -- kernel dictionary heuristics (sorted, unique keys) are not modelled
+    else if n == "Dictionary" || n == "dictionary" || n == "Bool" then none  -- kernel heuristics (dictionaries: sorted unique keys; Bool: primitive) are not modelled
     else
       let pick : Option (Comb × Rng) :=
         match findCons s n with
